@@ -5,8 +5,8 @@ import pktgen, scen
 
 class Prop(PropBase):
     pid = 'C19'
-    kernels = ['throttle_sites']
-    vo_targets = ['Props/Properties_C19.vo', 'Proofs/Errors.vo', 'Proofs/Throttle.vo']
+    kernels = ['throttle_sites', 'gates_msop', 'gates_difop']
+    vo_targets = ['Props/Properties_C19.vo', 'Proofs/Errors.vo', 'Proofs/Throttle.vo', 'Proofs/Gates.vo']
     prop_files = ['Props/Properties_C19.v']
     rule = ('all 17 types; clean calibrated streams (must be silent); every malformed kind (length +-1/2/6, identifier bit flips, bad block id at block k, foreign, empty, '
             '1-2 byte, random), DIFOP-less waiting streams, null get answers; wall clock (interposed time()) stepping by 0, 1, 2 s so that throttles are exercised; '
